@@ -11,6 +11,7 @@ package c19
 //
 // op lines (channels are named by the number of their LOCAL id `channel-<l>`):
 //   chan l r                          local channel-l is connected to the counterparty's channel-r
+//   seq l n                           the next send sequence of channel l becomes n (never decreases)
 //   meta l                            bank metadata exists for the aliased voucher of channel l (what the transfer
 //                                     module's InitGenesis / MigrateDenomMetadata write for every denom trace)
 //   fund a tok l amt                  tok F|N|U: bank coins; A: ERC-20 of the aliased base token + voucher liquidity on l
@@ -97,7 +98,9 @@ type env struct {
 	s       *hx.Suite
 	rng     *rand.Rand
 	out     *hx.Out
-	chans   []*chanT
+	chans   map[int]*chanT
+	order   []int // local channel numbers in creation order
+	keyName map[string][2]uint64 // raw relation key -> (local channel, sequence) it was computed for
 	signers map[int]*helpers.Signer
 	addrs   map[int]common.Address
 	okC     common.Address
@@ -173,8 +176,8 @@ func (e *env) holdings(a common.Address) map[string]int64 {
 	}
 	m["erc:base"] = e.ercOf(e.ercBase, a)
 	m["erc:nat"] = e.ercOf(e.ercNat, a)
-	for _, ch := range e.chans {
-		m[fmt.Sprintf("erc:v%d", ch.l)] = e.ercOf(ch.ercV, a)
+	for _, l := range e.order {
+		m[fmt.Sprintf("erc:v%d", l)] = e.ercOf(e.chans[l].ercV, a)
 	}
 	return m
 }
@@ -208,25 +211,33 @@ func delta(a, b map[string]int64) (map[string]int64, string) {
 	return d, strings.Join(ss, ",")
 }
 
-func (e *env) relSet() map[[2]uint64]bool {
-	m := map[[2]uint64]bool{}
+// relKey: the raw store key of the tracking record of (local channel l, sequence), computed by the REAL key function
+func (e *env) relKey(l int, seq uint64) string {
+	k := string(erc20types.GetIBCTransferKey(e.chans[l].id, seq))
+	if _, ok := e.keyName[k]; !ok {
+		e.keyName[k] = [2]uint64{uint64(l), seq}
+	}
+	return k
+}
+
+// relSet: the raw keys of all tracking records
+func (e *env) relSet() map[string]bool {
+	m := map[string]bool{}
 	for _, kv := range hx.RawPrefix(e.s.Ctx, e.s.App.GetKey(erc20types.StoreKey), erc20types.KeyPrefixIBCTransfer) {
-		k := string(kv[0][1:])
-		i := strings.LastIndexByte(k, '/')
-		seq, _ := strconv.ParseUint(k[i+1:], 10, 64)
-		c := uint64(99)
-		if n, err := strconv.ParseUint(strings.TrimPrefix(k[:i], "channel-"), 10, 64); err == nil && strings.HasPrefix(k[:i], "channel-") {
-			c = n
-		}
-		m[[2]uint64{c, seq}] = true
+		m[string(kv[0])] = true
 	}
 	return m
 }
 
-func relStr(m map[[2]uint64]bool) string {
+// relStr names every raw key by the (local channel, sequence) it belongs to (99/0 = a key nobody asked for)
+func (e *env) relStr(m map[string]bool) string {
 	var xs [][2]uint64
 	for k := range m {
-		xs = append(xs, k)
+		if n, ok := e.keyName[k]; ok {
+			xs = append(xs, n)
+		} else {
+			xs = append(xs, [2]uint64{99, 0})
+		}
 	}
 	sort.Slice(xs, func(i, j int) bool { return xs[i][0] < xs[j][0] || (xs[i][0] == xs[j][0] && xs[i][1] < xs[j][1]) })
 	if len(xs) == 0 {
@@ -239,19 +250,19 @@ func relStr(m map[[2]uint64]bool) string {
 	return strings.Join(ss, ",")
 }
 
-func (e *env) rel() string { return relStr(e.relSet()) }
+func (e *env) rel() string { return e.relStr(e.relSet()) }
 
-// relFrame: after == before with exactly `add` added / `del` removed (nil = none)
-func relFrame(before, after map[[2]uint64]bool, add, del *[2]uint64) bool {
-	want := map[[2]uint64]bool{}
+// relFrame: after == before with exactly `add` added / `del` removed ("" = none)
+func relFrame(before, after map[string]bool, add, del string) bool {
+	want := map[string]bool{}
 	for k := range before {
 		want[k] = true
 	}
-	if add != nil {
-		want[*add] = true
+	if add != "" {
+		want[add] = true
 	}
-	if del != nil {
-		delete(want, *del)
+	if del != "" {
+		delete(want, del)
 	}
 	if len(want) != len(after) {
 		return false
@@ -262,6 +273,27 @@ func relFrame(before, after map[[2]uint64]bool, add, del *[2]uint64) bool {
 		}
 	}
 	return true
+}
+
+// checkRecords: in every state the tracking records are exactly those of the in-flight EVM-originated transfers of a
+// token other than FX (Lean: relation_records_are_inflight)
+func (e *env) checkRecords(after string) {
+	cur := e.relSet()
+	live := map[string]bool{}
+	for _, x := range e.sents {
+		if x.evm && x.tok != "F" && x.done == "" {
+			k := e.relKey(x.l, x.seq)
+			live[k] = true
+			if !cur[k] {
+				e.out.Violate(fmt.Sprintf("relation: the in-flight EVM-originated transfer on local channel %d sequence %d has no tracking record after `%s` (records: %s)", x.l, x.seq, after, e.relStr(cur)))
+			}
+		}
+	}
+	for k := range cur {
+		if !live[k] {
+			e.out.Violate(fmt.Sprintf("relation: tracking record %s belongs to no in-flight EVM-originated transfer after `%s`", e.relStr(map[string]bool{k: true}), after))
+		}
+	}
 }
 
 func (e *env) marker() int64 {
@@ -289,15 +321,17 @@ func voucher(l int, remote string) string {
 	return transfertypes.ParseDenomTrace(fmt.Sprintf("%s/channel-%d/%s", port, l, remote)).IBCDenom()
 }
 
-func (e *env) setup(cps []int) {
+func (e *env) setup(ls, cps []int) {
 	s := e.s
 	var aliases []string
-	for l := 0; l < nChan; l++ {
+	e.chans = map[int]*chanT{}
+	for i, l := range ls {
+		s.App.IBCKeeper.ChannelKeeper.SetNextChannelSequence(s.Ctx, uint64(l))
 		_, id := s.GenIBCTransferChannel()
 		if id != fmt.Sprintf("channel-%d", l) {
 			panic("unexpected channel id " + id)
 		}
-		ch := &chanT{l: l, r: cps[l], id: id, cp: fmt.Sprintf("channel-%d", cps[l])}
+		ch := &chanT{l: l, r: cps[i], id: id, cp: fmt.Sprintf("channel-%d", cps[i])}
 		c, found := s.App.IBCKeeper.ChannelKeeper.GetChannel(s.Ctx, port, id)
 		if !found {
 			panic("channel not found")
@@ -308,7 +342,8 @@ func (e *env) setup(cps []int) {
 		ch.vA, ch.vV, ch.vX = voucher(l, remoteA), voucher(l, remoteV), voucher(l, remoteX)
 		s.App.IBCTransferKeeper.SetDenomTrace(s.Ctx, transfertypes.ParseDenomTrace(fmt.Sprintf("%s/%s/%s", port, id, remoteA)))
 		aliases = append(aliases, ch.vA)
-		e.chans = append(e.chans, ch)
+		e.chans[l] = ch
+		e.order = append(e.order, l)
 		e.out.Emit(fmt.Sprintf("chan %d %d", ch.l, ch.r), "ok")
 	}
 	if err := s.App.EthKeeper.SetToken(s.Ctx, "Out Token", strings.ToUpper(baseA), 18, aliases...); err != nil {
@@ -316,11 +351,18 @@ func (e *env) setup(cps []int) {
 	}
 	e.ercBase = s.AddTokenPair(baseA, true)
 	e.ercNat = s.AddTokenPair(natD, true)
-	for _, ch := range e.chans {
-		ch.ercV = s.AddTokenPair(ch.vV, true)
+	for _, l := range e.order {
+		e.chans[l].ercV = s.AddTokenPair(e.chans[l].vV, true)
 	}
 	// every address a memo call can be made from here must exist as an account (CallEVM reads its sequence)
-	for n := 0; n < 10; n++ {
+	nums := map[int]bool{}
+	for n := 0; n < 12; n++ {
+		nums[n] = true
+	}
+	for _, ch := range e.chans {
+		nums[ch.l], nums[ch.r] = true, true
+	}
+	for n := range nums {
 		for k := 0; k < nSenders; k++ {
 			is := ibcmwtypes.IntermediateSender(port, fmt.Sprintf("channel-%d", n), remoteSender(k))
 			s.App.AccountKeeper.SetAccount(s.Ctx, s.App.AccountKeeper.NewAccountWithAddress(s.Ctx, is.Bytes()))
@@ -352,6 +394,17 @@ func (e *env) meta(l int) {
 	ch.meta = true
 	e.out.Emit(fmt.Sprintf("meta %d", l), "ok")
 	e.out.Count("meta")
+}
+
+// seqset: the channel's next send sequence jumps forward (as after many transfers)
+func (e *env) seqset(l int, n uint64) {
+	ch := e.chans[l]
+	cur, _ := e.s.App.IBCKeeper.ChannelKeeper.GetNextSequenceSend(e.s.Ctx, port, ch.id)
+	if n > cur {
+		e.s.App.IBCKeeper.ChannelKeeper.SetNextSequenceSend(e.s.Ctx, port, ch.id, n)
+	}
+	e.out.Emit(fmt.Sprintf("seq %d %d", l, n), "ok")
+	e.out.Count("seq-jump")
 }
 
 func bankDenom(tok string, ch *chanT) string {
@@ -510,7 +563,7 @@ func (e *env) recv(l int, tok, rk string, to int, amt int64, memo string, snd in
 	} else if len(d) != 0 {
 		e.out.Violate(fmt.Sprintf("recv: error acknowledgement but the receiver's holdings changed by [%s] (%s)", ds, class))
 	}
-	if !relFrame(rel0, e.relSet(), nil, nil) {
+	if !relFrame(rel0, e.relSet(), "", "") {
 		e.out.Violate("recv: an inbound packet changed the tracking records of outbound transfers")
 	}
 	if e.marker() != m0 {
@@ -600,7 +653,7 @@ func (e *env) send(l, from int, tok string, amt int64, evm bool) {
 		e.out.Emit(op, "fail")
 		e.out.Count(fmt.Sprintf("send:fail:%s:evm=%v", tok, evm))
 		e.out.Nontrivial("send|" + tok + "|fail|" + firstWords(res))
-		if !relFrame(rel0, e.relSet(), nil, nil) {
+		if !relFrame(rel0, e.relSet(), "", "") {
 			e.out.Violate("send: a failed transfer changed the tracking records")
 		}
 		return
@@ -615,6 +668,7 @@ func (e *env) send(l, from int, tok string, amt int64, evm bool) {
 	if !bytes.Equal(channeltypes.CommitPacket(s.App.AppCodec(), packet), s.App.IBCKeeper.ChannelKeeper.GetPacketCommitment(s.Ctx, port, ch.id, seq)) {
 		e.out.Violate("harness: the rebuilt packet is not the one IBC core committed to (" + op + ")")
 	}
+	e.relKey(l, seq) // name the key this transfer's record would have
 	st := &sent{l: l, seq: seq, from: from, tok: tok, amt: amt, evm: evm, packet: packet}
 	e.sents = append(e.sents, st)
 	esc, tm := int64(0), int64(0)
@@ -635,14 +689,15 @@ func (e *env) send(l, from int, tok string, amt int64, evm bool) {
 			}
 		}
 	}
-	want := [2]uint64{uint64(l), seq}
+	want := e.relKey(l, seq)
 	if evm && tok != "F" {
-		if !relFrame(rel0, e.relSet(), &want, nil) {
-			e.out.Violate(fmt.Sprintf("send: EVM-originated transfer on local channel %d sequence %d: tracking records are [%s], expected exactly [%s] plus %d/%d", l, seq, e.rel(), relStr(rel0), l, seq))
+		if !relFrame(rel0, e.relSet(), want, "") {
+			e.out.Violate(fmt.Sprintf("send: EVM-originated transfer on local channel %d sequence %d: tracking records are [%s], expected exactly [%s] plus %d/%d", l, seq, e.rel(), e.relStr(rel0), l, seq))
 		}
-	} else if !relFrame(rel0, e.relSet(), nil, nil) {
+	} else if !relFrame(rel0, e.relSet(), "", "") {
 		e.out.Violate("send: a transfer that is not refundable in ERC-20 form changed the tracking records")
 	}
+	e.checkRecords(op)
 }
 
 func firstWords(s string) string {
@@ -723,22 +778,23 @@ func (e *env) settle(l int, seq uint64, mode string) {
 	e.out.Nontrivial(fmt.Sprintf("settle|%s|%s|evm=%v", mode, st.tok, st.evm))
 
 	// ---- monitors -------------------------------------------------------------------------------------------
-	own := [2]uint64{uint64(l), seq}
+	own := e.relKey(l, seq)
 	after := e.relSet()
 	modeTxt := map[string]string{"ok": "a success acknowledgement", "err": "an error acknowledgement", "timeout": "a timeout"}[mode]
 	if after[own] {
 		e.out.Violate(fmt.Sprintf("relation: tracking record of an EVM-originated transfer is kept after %s (local channel %d != counterparty channel %d: %v, %s)", modeTxt, ch.l, ch.r, ch.l != ch.r, class))
 	}
 	delete(after, own)
-	b0 := map[[2]uint64]bool{}
+	b0 := map[string]bool{}
 	for k := range rel0 {
 		if k != own {
 			b0[k] = true
 		}
 	}
-	if !relFrame(b0, after, nil, nil) {
-		e.out.Violate(fmt.Sprintf("relation: %s of local channel %d sequence %d touched the tracking record of another transfer: before [%s] after [%s]", modeTxt, l, seq, relStr(rel0), e.rel()))
+	if !relFrame(b0, after, "", "") {
+		e.out.Violate(fmt.Sprintf("relation: %s of local channel %d sequence %d touched the tracking record of another transfer: before [%s] after [%s]", modeTxt, l, seq, e.relStr(rel0), e.rel()))
 	}
+	e.checkRecords(op)
 	_, ds := delta(h0, e.holdings(a))
 	want := map[string]int64{}
 	if mode != "ok" {
@@ -776,6 +832,8 @@ func (e *env) exec(line string) {
 	switch {
 	case len(f) == 2 && f[0] == "meta":
 		e.meta(n(1))
+	case len(f) == 3 && f[0] == "seq":
+		e.seqset(n(1), uint64(n(2)))
 	case len(f) == 5 && f[0] == "fund":
 		e.fund(n(1), f[2], n(3), n64(4))
 	case len(f) == 8 && f[0] == "recv":
@@ -803,23 +861,21 @@ func runFile(t *testing.T, out *hx.Out, rng *rand.Rand, pending map[string]bool,
 		}
 		lines = append(lines, l)
 	}
-	cps := []int{0, 1, 2}
+	var ls, cps []int
 	rest := lines[:0:0]
 	for _, l := range lines {
 		f := strings.Fields(l)
 		if len(f) == 3 && f[0] == "chan" {
 			a, _ := strconv.Atoi(f[1])
 			b, _ := strconv.Atoi(f[2])
-			if a >= 0 && a < nChan {
-				cps[a] = b
-			}
+			ls, cps = append(ls, a), append(cps, b)
 			continue
 		}
 		rest = append(rest, l)
 	}
 	e := newEnv(t, out, rng, pending)
 	out.Reset()
-	e.setup(cps)
+	e.setup(ls, cps)
 	for _, l := range rest {
 		e.exec(l)
 	}
@@ -828,7 +884,8 @@ func runFile(t *testing.T, out *hx.Out, rng *rand.Rand, pending map[string]bool,
 
 func newEnv(t *testing.T, out *hx.Out, rng *rand.Rand, pending map[string]bool) *env {
 	return &env{s: hx.NewSuite(t, 1), rng: rng, out: out, signers: map[int]*helpers.Signer{}, addrs: map[int]common.Address{},
-		callers: map[common.Address]map[string]bool{}, derived: map[common.Address]string{}, pending: pending}
+		callers: map[common.Address]map[string]bool{}, derived: map[common.Address]string{}, pending: pending,
+		keyName: map[string][2]uint64{}}
 }
 
 // end of history: every failed / timed-out EVM-originated aliased transfer refunded exactly once
@@ -859,17 +916,27 @@ func (e *env) generate(nops int) {
 	rng, out := e.rng, e.out
 	memos := []string{"none", "junk", "callok", "callrev", "callok"}
 	for from := 1; from <= 3; from++ {
-		e.fund(from, "A", rng.Intn(nChan), int64(100+rng.Intn(900)))
-		e.fund(from, "A", rng.Intn(nChan), int64(100+rng.Intn(900)))
+		e.fund(from, "A", e.order[rng.Intn(len(e.order))], int64(100+rng.Intn(900)))
+		e.fund(from, "A", e.order[rng.Intn(len(e.order))], int64(100+rng.Intn(900)))
 		e.fund(from, "F", 0, int64(1000+rng.Intn(9000)))
 		e.fund(from, "N", 0, int64(500+rng.Intn(900)))
 		e.fund(from, "U", 0, int64(500+rng.Intn(900)))
 	}
 	if rng.Intn(3) == 0 {
-		e.meta(rng.Intn(nChan))
+		e.meta(e.order[rng.Intn(len(e.order))])
+	}
+	// sequences that make "<channel><sequence>" ambiguous between two channels: channel-1 seq 11.. / channel-11 seq 1..
+	for _, a := range e.order {
+		for _, b := range e.order {
+			sa, sb := strconv.Itoa(a), strconv.Itoa(b)
+			if a != b && strings.HasPrefix(sb, sa) && rng.Intn(3) != 0 {
+				tail, _ := strconv.Atoi(sb[len(sa):] + "1")
+				e.seqset(a, uint64(tail))
+			}
+		}
 	}
 	for j := 0; j < nops; j++ {
-		l := rng.Intn(nChan)
+		l := e.order[rng.Intn(len(e.order))]
 		switch r := rng.Intn(20); {
 		case r < 6:
 			amt := int64(1 + rng.Intn(300))
@@ -890,7 +957,8 @@ func (e *env) generate(nops int) {
 				}
 				if tok == "A" && rng.Intn(3) == 0 {
 					// a second transfer on another channel whose next sequence is the same: equal sequences in flight
-					for _, o := range e.chans {
+					for _, ol := range e.order {
+						o := e.chans[ol]
 						so, _ := e.s.App.IBCKeeper.ChannelKeeper.GetNextSequenceSend(e.s.Ctx, port, o.id)
 						sl, _ := e.s.App.IBCKeeper.ChannelKeeper.GetNextSequenceSend(e.s.Ctx, port, e.chans[l].id)
 						if o.l != l && so == sl {
@@ -916,7 +984,7 @@ func (e *env) generate(nops int) {
 			if tok == "F" || tok == "N" || tok == "U" {
 				// prefer a channel on which the counterparty holds some of the coin
 				for try := 0; try < 3 && e.avail(l, tok) <= 0; try++ {
-					l = rng.Intn(nChan)
+					l = e.order[rng.Intn(len(e.order))]
 				}
 				avail := e.avail(l, tok)
 				switch {
@@ -940,6 +1008,11 @@ func (e *env) generate(nops int) {
 				if x.done == "" {
 					open = append(open, x)
 				}
+			}
+			if len(open) == 0 && rng.Intn(4) != 0 {
+				// nothing in flight: start a transfer instead of settling nothing
+				e.send(l, 1+rng.Intn(3), []string{"A", "A", "F", "N"}[rng.Intn(4)], int64(1+rng.Intn(200)), rng.Intn(3) != 0)
+				continue
 			}
 			switch {
 			case len(open) > 0 && rng.Intn(8) != 0:
@@ -978,16 +1051,20 @@ func TestC19(t *testing.T) {
 		}
 	}
 	nseq := hx.N(36, 120)
-	topologies := [][]int{{1, 0, 2}, {0, 1, 2}, {1, 0, 1}, {1, 2, 0}, {5, 5, 7}, {1, 1, 1}}
+	// local ids / counterparty ids: equal, crossed, two counterparties with the same id, ids whose decimal
+	// representations are prefixes of one another (channel-1 / channel-11 / channel-111)
+	locals := [][]int{{0, 1, 2}, {0, 1, 2}, {1, 11, 2}, {0, 1, 2}, {1, 11, 111}, {0, 1, 10}}
+	topologies := [][]int{{1, 0, 2}, {0, 1, 2}, {11, 1, 1}, {1, 2, 0}, {5, 5, 7}, {1, 1, 1}}
 	for i := 0; i < nseq; i++ {
 		e := newEnv(t, out, rng, pending)
 		out.Reset()
+		ls := locals[i%len(locals)]
 		cps := topologies[i%len(topologies)]
 		if rng.Intn(4) == 0 {
 			cps = []int{rng.Intn(4), rng.Intn(4), rng.Intn(4)}
 		}
-		e.setup(cps)
-		out.Count(fmt.Sprintf("topology:%v", cps))
+		e.setup(ls, cps)
+		out.Count(fmt.Sprintf("topology:local%v:counterparty%v", ls, cps))
 		e.generate(hx.N(60, 140))
 	}
 }
